@@ -16,7 +16,8 @@ EXHAUSTIVE = True
 RULE = ("product of payload length x API (download/force_segment/open wb with size, without size, forced/text mode) x "
         "buffering {0,7,8,1024 | 1,1024 text} x every split of the payload into write() calls (all 2^(n-1) compositions "
         "for n<=9, all 1- and 2-cut splits above) x predecessor transfer on the same client (none, expedited, "
-        "odd-segment-count segmented, unknown-size stream); uploads: length x server style {expedited with/without "
+        "odd-segment-count segmented, unknown-size stream, and FAILED ones: upload / download whose answer arrives after the "
+        "client gave up, upload refused by the server); uploads: length x server style {expedited with/without "
         "size, segmented with/without size} x segment plan {full, short non-final segments} x read API/buffering/read "
         "sizes (uniform, and a small read followed by read-everything on raw / 2 / 3 / 7-byte buffered streams) "
         "x dictionary entry {absent, every fixed-size type, string}; plus a length sweep (every length up to 1100 quick / 2100 "
@@ -58,6 +59,9 @@ def _od():
     return od
 
 
+PREDS = ("none", "exp", "seg3", "stream", "late-ul", "late-dl", "aborted-ul")
+
+
 def cases(tier, seed):
     out = []
     big = [127, 128, 889, 890, 1024, 1025, 1031, 10000]
@@ -67,9 +71,9 @@ def cases(tier, seed):
         for api in ("download", "force", "open_size", "open_nosize", "open_size_force", "text_size", "text_nosize"):
             bufs = (1, 1024) if api.startswith("text") else ((7,) if api in ("download", "force") else (0, 7, 8, 1024))
             for buffering in bufs:
-                preds = ("none", "exp", "seg3", "stream") if (n <= 16 and api in ("download", "open_nosize", "open_size")
+                preds = PREDS if (n <= 16 and api in ("download", "open_nosize", "open_size")
                                                                and buffering in (7, 0)) else \
-                    (("none", "exp", "seg3", "stream")[k % 4],)
+                    (PREDS[k % len(PREDS)],)
                 for pred in preds:
                     k += 1
                     out.append({"dir": "dl", "n": n, "api": api, "buf": buffering, "pred": pred,
@@ -90,7 +94,7 @@ def cases(tier, seed):
                             continue
                         k += 1
                         out.append({"dir": "ul", "n": n, "style": style, "plan": plan, "od": od, "mode": mode,
-                                    "pred": ("none", "exp", "seg3", "stream")[k % 4] if n > 8 or mode != "upload" else
+                                    "pred": PREDS[k % len(PREDS)] if n > 8 or mode != "upload" else
                                     ("none", "seg3")[k % 2],
                                     "addr": list(ADDRS[(k + seed) % len(ADDRS)]) if od == "absent" else [OD_INDEX[od], 0],
                                     "seed": seed})
@@ -124,7 +128,7 @@ def cases(tier, seed):
             for style in ("exp_s", "seg_s", "seg_nos"):
                 if style.startswith("exp") and not 1 <= n <= 4:
                     continue
-                for pred in ("none", "exp", "seg3", "stream"):
+                for pred in PREDS:
                     out.append({"dir": "ul", "n": n, "style": style, "plan": None, "od": "absent", "mode": "upload",
                                 "pred": pred, "addr": [0x2000, 0], "seed": seed})
     return out
@@ -180,8 +184,17 @@ def make(style="auto", plan=None, mux=None):
     net = canopen.Network()
     bus.attach(net, "client")
     srv = StrictSdoServer(5, style=style, seg_plan=plan)
-    bus.add_device(srv.on_frame, "server")
+    srv.hold, srv.held = False, []
+
+    def dev(can_id, data, remote=False):
+        out = srv.on_frame(can_id, data, remote)
+        if srv.hold:
+            srv.held += out          # a slow server: its answers are in flight until the harness releases them
+            return []
+        return out
+    bus.add_device(dev, "server")
     node = net.add_node(5, _od())
+    srv.bus = bus
     return node, srv, bus
 
 
@@ -201,6 +214,28 @@ def predecessor(node, srv, pred, seed):
     elif pred == "stream":
         with node.sdo.open(0x2100, 1, "wb", buffering=7) as fp:      # unknown size, 1 segment + closing segment
             fp.write(simenv.pattern(7, seed + 5))
+    elif pred in ("late-ul", "late-dl", "aborted-ul"):
+        # a FAILED earlier transfer on the same client: the answer arrives only after the client gave up (and sent its
+        # abort), or the server refuses; the next transfer must not be affected
+        import canopen
+        srv.store[(0x2100, 2)] = simenv.pattern(3, seed + 9)
+        srv.hold = pred != "aborted-ul"
+        try:
+            if pred == "late-ul":
+                node.sdo.upload(0x2100, 2)
+            elif pred == "late-dl":
+                node.sdo.download(0x2100, 1, simenv.pattern(2, seed + 5))
+            else:
+                node.sdo.upload(0x2F00, 0x7F)              # no such object: the server aborts
+            raise simenv.HarnessError(f"predecessor {pred} did not fail")
+        except (canopen.SdoCommunicationError, canopen.SdoAbortedError):
+            pass
+        srv.hold = False
+        for cid, fr in srv.held:
+            srv.bus.inject(cid, fr)                        # the late answer reaches the client now
+        del srv.held[:]
+        srv.violations[:] = [v for v in srv.violations if False]
+        simenv.W.timeouts = 0
     srv.frames.clear()
     srv.commits.clear()
 
